@@ -739,6 +739,11 @@ class Engine:
                 facts = self._kill(facts, v)
                 if "init" in d and not d.get("is_ref"):
                     it = fn.term(d["init"])
+                    rf = getattr(self, "_ret_facts", {}).get((fn.key, fn.strip(d["init"])))
+                    if rf:
+                        for g in rf:
+                            g2 = substitute(g, {("RET",): v})
+                            facts = facts | {norm_cmp(g2[0], g2[1], g2[2]) if g2[0] in ("<", "<=", "==", "!=") and len(g2) == 3 else g2}
                     if it[0] not in ("?", "ctor", "initlist", "lambda") and not mentions(it, v):
                         facts = facts | {norm_cmp("==", v, it)}
                         facts = facts | self._iterator_range_facts(v, it, facts)
@@ -813,11 +818,52 @@ class Engine:
         # facts established by callees (verifier summaries), translated back
         if exit_sets:
             common = None
+            rcommon = None
             for cal, ex in exit_sets:
                 back = self._translate_out(fn, ex, cal, obj_t, rest)
                 common = back if common is None else (common & back)
+                rb = self._returned_object_facts(fn, ex, cal, obj_t, rest)
+                rcommon = rb if rcommon is None else (rcommon & rb)
             facts = facts | (common or set())
+            # what the callee established about the object it returns (`T r; ...; return r;`), kept for the declaration
+            # this call initialises (`T x = f(...)`), stated there about x
+            if not hasattr(self, "_ret_facts"):
+                self._ret_facts = {}
+            self._ret_facts[(fn.key, nd["id"])] = rcommon or set()
         return facts
+
+    def _returned_object_facts(self, fn, ex, cal, obj_t, rest):
+        """Exit facts of `cal` about the one local it returns on every returning path, with that local replaced by
+        ("RET",) and the parameters by the arguments; facts mentioning any other callee local are dropped."""
+        rets = [x for x in cal.nodes if x["k"] == "ReturnStmt" and "value" in x]
+        if not rets:
+            return set()
+        rv = {cal.term(r["value"]) for r in rets}
+        if len(rv) != 1:
+            return set()
+        r = list(rv)[0]
+        own = self._own_decls(cal)
+        if r[0] != "var" or r[2] not in own or any(r == ("var", p["n"], p["d"]) for p in cal.params):
+            return set()
+        on_this = obj_t is not None and (obj_t == ("this",) or (obj_t[0] == "un" and obj_t[2] == ("this",)))
+        inv = {}
+        for i, p in enumerate(cal.params):
+            if i < len(rest):
+                at = fn.term(rest[i])
+                if at[0] != "?":
+                    inv[("var", p["n"], p["d"])] = at
+        out = set()
+        for f in ex:
+            if f[0] in ("ev", "called") or not mentions(f, r):
+                continue
+            if any(s[0] == "var" and s != r and s not in inv for s in subterms(f)):
+                continue
+            if mentions(f, ("this",)) and not on_this:
+                continue
+            g = substitute(f, {r: ("RET",)})
+            g = substitute(g, inv)
+            out.add(g)
+        return out
 
     def _mk_root_item(self, fn):
         pidx = {p["d"]: i for i, p in enumerate(fn.params)}
@@ -1016,6 +1062,14 @@ class Engine:
         for f in ex:
             if f[0] == "ev":
                 out.add(f)
+                # a refusal the callee made on its parameters is a refusal on the arguments it was given
+                if f[1] in ("passed", "each") and any(s[0] == "var" and s in pvars for s in subterms(f)):
+                    if all(s[0] != "var" or s in pvars for s in subterms(f)):
+                        g = substitute(f, inv)
+                        if mentions(f, ("this",)) and not on_this:
+                            g = substitute(g, {("this",): obj_t}) if obj_t is not None else None
+                        if g is not None:
+                            out.add(g)
                 continue
             ok = True
             for s in subterms(f):
@@ -1086,6 +1140,14 @@ class Engine:
                 s = set(cur)
                 if label is not None and cid is not None:
                     cf = cond_facts(fn, cid, label)
+                    # a test on a local that only names a value is a test on that value
+                    if fn.local_definitions():
+                        extra = set()
+                        for f in cf:
+                            f2 = fn.through_locals(f)
+                            if f2 != f:
+                                extra.add(norm_cmp(f2[0], f2[1], f2[2]) if f2[0] in ("<", "<=", "==", "!=") and len(f2) == 3 else f2)
+                        cf = cf | extra
                     s |= cf
                     # refusal: the other branch throws
                     others = [x for (x, l) in g.succ[b] if l is not None and l != label]
